@@ -660,6 +660,46 @@ def _flatten(k):
         yield k
 
 
+def walk_direct(e):
+    """Like walk, but does not follow `mutated_by(..)` alternatives (values a local may have
+    been changed to by a callee holding a &mut to it): the direct provenance only."""
+    seen = set()
+    stack = [e]
+    while stack:
+        x = stack.pop()
+        if id(x) in seen:
+            continue
+        seen.add(id(x))
+        tag = x[0]
+        if tag == "mut":
+            continue
+        yield x
+        if tag == "call":
+            stack.extend(x[3])
+        elif tag == "bin":
+            stack.append(x[2]); stack.append(x[3])
+        elif tag == "un":
+            stack.append(x[2])
+        elif tag in ("cast", "discr"):
+            stack.append(x[1])
+        elif tag == "agg":
+            stack.extend(x[3])
+        elif tag == "closure":
+            stack.extend(x[2])
+        elif tag == "phi":
+            stack.extend(x[1])
+        elif tag in ("proj", "part"):
+            stack.append(x[2])
+        elif tag == "lazy":
+            v = x[1]._expr_memo.get(x[2])
+            if v is not None:
+                stack.append(v)
+
+
+def direct_arg_leaves(e):
+    return {arg_name(x[1]) + "".join("." + f for f in x[2]) for x in walk_direct(e) if x[0] == "arg"}
+
+
 def arg_name(a):
     return "a%d" % a if isinstance(a, int) else str(a)
 
